@@ -7,6 +7,7 @@ pub mod finalstage;
 pub mod clock;
 pub mod clocksys;
 pub mod clocktear;
+pub mod mixer;
 pub mod param;
 pub mod srate;
 pub mod system;
@@ -44,6 +45,9 @@ pub fn gen(suite: &str, rng: &mut Rng, n: usize, thorough: bool, stats: &mut Sta
 		"psm" => psm::gen(rng, n, thorough, stats),
 		"static" => static_sound::gen(rng, n, thorough, stats),
 		"static_ood" => static_sound::gen_ood(rng, n, thorough, stats),
+		"mixer" => mixer::gen(rng, n, thorough, stats, mixer::Mode::Flow),
+		"mixtrk" => mixer::gen(rng, n, thorough, stats, mixer::Mode::Tracks),
+		"mixpart" => mixer::gen(rng, n, thorough, stats, mixer::Mode::Partition),
 		_ => panic!("unknown suite {}", suite),
 	}
 }
@@ -66,6 +70,9 @@ pub fn run(suite: &str, ops: &[String]) -> Vec<String> {
 		"transport" => transport::run(ops),
 		"psm" => psm::run(ops),
 		"static" | "static_ood" => static_sound::run(ops),
+		"mixer" => mixer::run(ops, mixer::Mode::Flow),
+		"mixtrk" => mixer::run(ops, mixer::Mode::Tracks),
+		"mixpart" => mixer::run(ops, mixer::Mode::Partition),
 		_ => panic!("unknown suite {}", suite),
 	}
 }
